@@ -1,1 +1,2 @@
 //! Independent f64 reference models.
+pub mod stats;
